@@ -64,7 +64,9 @@ package magic
 //@ spec isBytesM(m) = forall i :: 0 <= m[i] && m[i] <= 255
 
 // zip_hdr: ghost, the offset of the local file header whose name field the walk is looking at
+//@ ghostvar zip_hdr int
 //@ func magic.zipContains
+//@   assigns ghost(zip_hdr)
 //@   loop 1 unroll
 //@   loop 2 unroll
 //@   ghost return: zip_hdr = off(b) - off(raw) - 30
@@ -73,6 +75,8 @@ package magic
 //@   ensures [C19_bounded_e2_csz0] off(raw) == 0 && len(raw) == 100 && isBytesM(raw) && skipOK(raw, msoCheck) && len(sig) == 5 && csz(raw) == 0 && pkAt(raw, 49) && !nameIs(raw, 0, sig) && nameIs(raw, 49, sig) ==> result
 //@   ensures [C19_bounded_e2_csz7] off(raw) == 0 && len(raw) == 120 && isBytesM(raw) && skipOK(raw, msoCheck) && len(sig) == 5 && csz(raw) == 7 && noPK(raw, 56, 60) && pkAt(raw, 60) && !nameIs(raw, 0, sig) && nameIs(raw, 60, sig) ==> result
 //@   ensures [C19_bounded_e4_gap56] off(raw) == 0 && len(raw) == 230 && isBytesM(raw) && skipOK(raw, msoCheck) && len(sig) == 5 && csz(raw) == 0 && pkAt(raw, 49) && noPK(raw, 50, 105) && pkAt(raw, 105) && noPK(raw, 106, 161) && pkAt(raw, 161) && !nameIs(raw, 0, sig) && !nameIs(raw, 49, sig) && !nameIs(raw, 105, sig) && nameIs(raw, 161, sig) ==> result
+//@   ensures [C19_bounded_e5_gap56] off(raw) == 0 && len(raw) == 286 && isBytesM(raw) && skipOK(raw, msoCheck) && len(sig) == 5 && csz(raw) == 0 && pkAt(raw, 49) && noPK(raw, 50, 105) && pkAt(raw, 105) && noPK(raw, 106, 161) && pkAt(raw, 161) && noPK(raw, 162, 217) && pkAt(raw, 217) && !nameIs(raw, 0, sig) && !nameIs(raw, 49, sig) && !nameIs(raw, 105, sig) && !nameIs(raw, 161, sig) && nameIs(raw, 217, sig) ==> result
+//@   ensures [C19_bounded_e6_gap56] off(raw) == 0 && len(raw) == 342 && isBytesM(raw) && skipOK(raw, msoCheck) && len(sig) == 5 && csz(raw) == 0 && pkAt(raw, 49) && noPK(raw, 50, 105) && pkAt(raw, 105) && noPK(raw, 106, 161) && pkAt(raw, 161) && noPK(raw, 162, 217) && pkAt(raw, 217) && noPK(raw, 218, 273) && pkAt(raw, 273) && !nameIs(raw, 0, sig) && !nameIs(raw, 49, sig) && !nameIs(raw, 105, sig) && !nameIs(raw, 161, sig) && !nameIs(raw, 217, sig) && nameIs(raw, 273, sig) ==> result
 //@   ensures [C19_bounded_e3_gap56] off(raw) == 0 && len(raw) == 160 && isBytesM(raw) && skipOK(raw, msoCheck) && len(sig) == 5 && csz(raw) == 0 && pkAt(raw, 49) && noPK(raw, 50, 105) && pkAt(raw, 105) && noPK(raw, 106, 157) && !nameIs(raw, 0, sig) && !nameIs(raw, 49, sig) && nameIs(raw, 105, sig) ==> result
 //@   ensures [C19_bounded_e3_gap31] off(raw) == 0 && len(raw) == 160 && isBytesM(raw) && skipOK(raw, msoCheck) && len(sig) == 5 && csz(raw) == 0 && pkAt(raw, 49) && noPK(raw, 50, 80) && pkAt(raw, 80) && noPK(raw, 81, 157) && !nameIs(raw, 0, sig) && !nameIs(raw, 49, sig) && nameIs(raw, 80, sig) ==> result
 //@   ensures [C19_witness] result ==> 0 <= zip_hdr && zip_hdr + 30 + len(sig) <= len(raw) && (zip_hdr == 0 || pkAt(raw, zip_hdr)) && hasPrefix(raw[zip_hdr+30:], sig)
@@ -199,3 +203,18 @@ package magic
 // the input is one object or array (valLen covers every byte), nested at most 4096 deep.
 //@ func magic.JSON
 //@   ensures [C08C09_G_json] (limit == 0 || len(raw) < limit) ==> result == (wsLen(raw) < len(raw) && (raw[wsLen(raw)] == '{' || raw[wsLen(raw)] == '[') && valLen(raw, 0, 4096) == len(raw))
+
+// C19, converse direction on the detectors themselves: a JAR / OOXML / APK verdict implies that a
+// local file header (the first, or one introduced by PK\3\4) carries the marker as a name prefix.
+//@ spec markerAt(raw, h, sig) = 0 <= h && h + 30 + len(sig) <= len(raw) && (h == 0 || pkAt(raw, h)) && hasPrefix(raw[h+30:], sig)
+//@ func magic.Jar
+//@   ensures [C19_jar_marker] result ==> markerAt(raw, zip_hdr, "META-INF/MANIFEST.MF")
+//@ func magic.Docx
+//@   ensures [C19_docx_marker] result ==> markerAt(raw, zip_hdr, "word/")
+//@ func magic.Xlsx
+//@   ensures [C19_xlsx_marker] result ==> markerAt(raw, zip_hdr, "xl/")
+//@ func magic.Pptx
+//@   ensures [C19_pptx_marker] result ==> markerAt(raw, zip_hdr, "ppt/")
+//@ func magic.APK
+//@   ensures [C19_apk_marker] result ==> markerAt(raw, zip_hdr, "AndroidManifest.xml") || markerAt(raw, zip_hdr, "META-INF/com/android/build/gradle/app-metadata.properties") || markerAt(raw, zip_hdr, "classes.dex") || markerAt(raw, zip_hdr, "resources.arsc") || markerAt(raw, zip_hdr, "res/drawable")
+//@   loop 1 unroll
